@@ -33,7 +33,9 @@ build || exit 2
 BIN="$HERE/target/release/check"
 case "$MODE" in
     quick|thorough)
-        "$BIN" "$ID" --tier "$MODE"; rc=$? ;;
+        # jbonsai writes diagnostics (eprintln!) to stderr; keep them out of the report
+        "$BIN" "$ID" --tier "$MODE" 2>"$HERE/target/$ID.stderr"; rc=$?
+        grep -E "^(INCONCLUSIVE|warning: cannot|cannot )" "$HERE/target/$ID.stderr" | head -n 20 ;;
     replay)
         "$BIN" "$ID" --replay "${3:?replay file}"; rc=$? ;;
     *) echo "unknown mode $MODE"; exit 2 ;;
